@@ -369,12 +369,19 @@ def edit_constant(parameterized):
         # shares with its class and so with other instances: a marker on
         # the instance (a counter, blocks may overlap). The Parameter
         # objects the instance has of its own show constant=False meanwhile,
-        # none is created for the purpose.
+        # none is created for the purpose. The constants are remembered by
+        # name: a Parameter object the instance gets inside the block is
+        # locked again with the others, whatever happened to the flags
+        # meanwhile.
         private.unlocked += 1
         try:
-            for pobj in list(private.params.values()):
-                if pobj.constant:
-                    private.unlocked_params.append(pobj)
+            names = private.unlocked_params
+            for name, pobj in parameterized.param.objects(instance=False).items():
+                if private.params.get(name, pobj).constant and name not in names:
+                    names.append(name)
+            for name in names:
+                pobj = private.params.get(name)
+                if pobj is not None and pobj.constant:
                     pobj.constant = False
             yield
         finally:
@@ -382,11 +389,13 @@ def edit_constant(parameterized):
             if not private.unlocked:
                 # Every flag is put back, also when a watcher of the
                 # 'constant' attribute raises on the way
-                flipped, private.unlocked_params = private.unlocked_params, []
+                names, private.unlocked_params = private.unlocked_params, []
                 failure = None
-                for pobj in flipped:
+                for name in names:
+                    pobj = private.params.get(name)
                     try:
-                        pobj.constant = True
+                        if pobj is not None and not pobj.constant:
+                            pobj.constant = True
                     except BaseException as e:
                         failure = failure or e
                 if failure is not None:
@@ -577,11 +586,13 @@ def _instantiated_parameter(parameterized, param):
         if key not in parameterized._param__private.params:
             pobj = _instantiate_param_obj(param, parameterized)
             parameterized._param__private.params[key] = pobj
-            if parameterized._param__private.unlocked and pobj.constant:
+            private = parameterized._param__private
+            if private.unlocked and (pobj.constant or key in private.unlocked_params):
                 # created inside edit_constant(parameterized): it shows
                 # the object as editable like its other Parameters
                 pobj.constant = False
-                parameterized._param__private.unlocked_params.append(pobj)
+                if key not in private.unlocked_params:
+                    private.unlocked_params.append(key)
 
         param = parameterized._param__private.params[key]
 
@@ -5481,7 +5492,7 @@ class _InstancePrivate:
         self.explicit_no_refs = [] if explicit_no_refs is None else explicit_no_refs
         self.syncing = set()
         self.unlocked = 0   # > 0 inside edit_constant(this object)
-        self.unlocked_params = []   # instance Parameters showing constant=False meanwhile
+        self.unlocked_params = []   # names of the constants (instance Parameters show constant=False meanwhile)
         if parameters_state is None:
             parameters_state = {
                 "BATCH_WATCH": False, # If true, Event and watcher objects are queued.
@@ -5499,7 +5510,14 @@ class _InstancePrivate:
         self.values = {} if values is None else values
 
     def __getstate__(self):
-        return {slot: getattr(self, slot) for slot in self.__slots__}
+        state = {slot: getattr(self, slot) for slot in self.__slots__}
+        # The edit_constant markers are not part of the state (a copy starts
+        # locked, see below); left out, an earlier version of the library
+        # can read the pickle
+        del state['unlocked']
+        if not state['unlocked_params']:
+            del state['unlocked_params']
+        return state
 
     def __setstate__(self, state):
         for k, v in state.items():
@@ -5516,8 +5534,9 @@ class _InstancePrivate:
         # ... and locked: the Parameters that showed constant=False because
         # the original was inside edit_constant are constants again
         self.unlocked = 0
-        for pobj in getattr(self, 'unlocked_params', None) or []:
-            pobj.constant = True
+        for name in getattr(self, 'unlocked_params', None) or []:
+            if name in self.params:
+                self.params[name].constant = True
         self.unlocked_params = []
 
 
